@@ -288,6 +288,66 @@ def in_f1(prog):
     return True
 
 
+def _test_ok(t):
+    if t[0] in ('true', 'false'):
+        return True
+    return t[0] == 'num' and t[1][0] == 'lit' and t[3][0] == 'lit' and t[1][1] >= 0 and t[3][1] >= 0
+
+
+def _fa(n):
+    """Spec/MacroPrint.fa_node: argument text"""
+    k = n[0]
+    if k == 'word':
+        return True
+    if k == 'group':
+        return all(_fa(x) for x in n[1])
+    if k == 'def':
+        return n[3] == 0 and n[4] is None and all(_fa(x) for x in n[5])
+    if k == 'call':
+        return n[2] is None and all(all(_fa(x) for x in a) for a in n[3])
+    if k == 'cond':
+        return _test_ok(n[1]) and all(_fa(x) for x in n[2]) and (n[3] is None or all(_fa(x) for x in n[3]))
+    return False
+
+
+def _fb(np, n, d):
+    """Spec/MacroPrint.fb_node: body of a macro with np parameters, nesting depth at most d"""
+    k = n[0]
+    if k == 'word':
+        return True
+    if k == 'param':
+        return 1 <= n[1] <= np
+    if k == 'group':
+        return d > 0 and all(_fb(np, x, d - 1) for x in n[1])
+    if k == 'def':
+        return n[3] == 0 and n[4] is None and d > 0 and all(_fb(np, x, d - 1) for x in n[5])
+    if k == 'call':
+        return n[2] is None and all(d > 0 and all(_fb(np, x, d - 1) for x in a) for a in n[3])
+    if k == 'cond':
+        return _test_ok(n[1]) and d > 0 and all(_fb(np, x, d - 1) for x in n[2]) and (n[3] is None or all(_fb(np, x, d - 1) for x in n[3]))
+    return False
+
+
+def _f2(n):
+    k = n[0]
+    if k == 'word':
+        return True
+    if k == 'group':
+        return all(_f2(x) for x in n[1])
+    if k == 'def':
+        return n[3] <= 9 and n[4] is None and (all(_fb(n[3], x, 49) for x in n[5]) or (n[3] == 0 and all(_fa(x) for x in n[5])))
+    if k == 'call':
+        return n[2] is None and all(all(_fa(x) for x in a) for a in n[3])
+    if k == 'cond':
+        return _test_ok(n[1]) and all(_f2(x) for x in n[2]) and (n[3] is None or all(_f2(x) for x in n[3]))
+    return False
+
+
+def in_f2(prog):
+    """Spec/MacroPrint.in_F2 on the Python side"""
+    return all(_f2(n) for n in prog)
+
+
 # ---- malformed stream: raw token lists -------------------------------------------------------------
 
 def T(c, s):
